@@ -11,6 +11,11 @@
 (*  Filter   {c, m, p, n, res:[row...]}   p = <<0>> for "no prefix"         *)
 (*  Modules  {c, res:[module...]}                                          *)
 (*  QueryFailed {c, op}       filter / list_modules raised                  *)
+(*  BigAddStart {c, b, size}  a batch of `size` distinct rows (too many to *)
+(*            list); it is observed by                                     *)
+(*  CheckCounts {counts:[{b, present, copies, size}], other, integrity}    *)
+(*            present = distinct rows of batch b in the table, copies =    *)
+(*            rows of b counting duplicates, other = rows of no big batch  *)
 (*  Check    {rows:[{mod, qn, key, cnt}...], integrity}  table contents    *)
 (*            read through an independent connection                       *)
 (*                                                                         *)
@@ -27,15 +32,16 @@ Recs == ndJsonDeserialize(IOEnv.TRACE_FILE)
 N == Len(Recs)
 
 VARIABLES i, l,
+          big,        \* ids of batches announced by BigAddStart (observed by counts only)
           rowsOf,     \* batch id -> sequence of rows (function, grows)
           committed,  \* batches whose add() returned ok
           undecided,  \* batch id -> "flying" | "ended"      (started, not known to be committed)
           known,      \* batch id -> "in" | "out"            (what observations have forced)
           viol
-vars == <<i, l, rowsOf, committed, undecided, known, viol>>
+vars == <<i, l, big, rowsOf, committed, undecided, known, viol>>
 
 Empty == [x \in {} |-> 0]
-Init == i = 1 /\ l = 0 /\ rowsOf = Empty /\ committed = {} /\ undecided = Empty /\ known = Empty /\ viol = {}
+Init == i = 1 /\ l = 0 /\ big = {} /\ rowsOf = Empty /\ committed = {} /\ undecided = Empty /\ known = Empty /\ viol = {}
 
 Row(r) == [mod |-> r.mod, qn |-> r.qn, key |-> r.key]
 NoPrefix == <<0>>
@@ -72,19 +78,45 @@ Step ==
      CASE e.ev = "AddStart" ->
             /\ rowsOf' = (e.b :> e.rows) @@ rowsOf
             /\ undecided' = (e.b :> "flying") @@ undecided
+            /\ UNCHANGED <<committed, known, viol, big>>
+       [] e.ev = "BigAddStart" ->
+            /\ rowsOf' = (e.b :> <<>>) @@ rowsOf
+            /\ undecided' = (e.b :> "flying") @@ undecided
+            /\ big' = big \cup {e.b}
             /\ UNCHANGED <<committed, known, viol>>
+       [] e.ev = "CheckCounts" ->
+            \* every big batch is in the table entirely (once) or not at all, committed ones entirely, and what was
+            \* seen present stays present (the same learning as for listed batches, on counts)
+            LET cnt(b) == CHOOSE x \in {e.counts[j] : j \in 1..Len(e.counts)} : x.b = b
+                seen == {e.counts[j].b : j \in 1..Len(e.counts)}
+                okOne(b) == /\ b \in seen
+                            /\ cnt(b).present \in {0, cnt(b).size} /\ cnt(b).copies = cnt(b).present
+                            /\ (b \in committed => cnt(b).present = cnt(b).size)
+                            /\ ((b \in DOMAIN known /\ known[b] = "in") => cnt(b).present = cnt(b).size)
+                            /\ ((b \in DOMAIN known /\ known[b] = "out" /\ b \in DOMAIN undecided /\ undecided[b] = "ended")
+                                  => cnt(b).present = 0)
+                good == e.integrity = "ok" /\ e.other = 0 /\ \A b \in big : okOne(b)
+            IN /\ viol' = viol \cup (IF e.integrity # "ok" THEN {"Integrity"} ELSE IF good THEN {} ELSE {"Atomic"})
+               /\ known' = IF good
+                           THEN [b \in (DOMAIN known \cup (big \cap DOMAIN undecided)) |->
+                                   IF b \in big /\ b \in DOMAIN undecided
+                                   THEN (IF cnt(b).present = cnt(b).size /\ cnt(b).size > 0 THEN "in"
+                                         ELSE IF cnt(b).size > 0 THEN "out" ELSE "in")
+                                   ELSE known[b]]
+                           ELSE known
+               /\ UNCHANGED <<rowsOf, committed, undecided, big>>
        [] e.ev = "AddEnd" ->
             IF e.ok
             THEN /\ committed' = committed \cup {e.b}
                  /\ undecided' = [b \in DOMAIN undecided \ {e.b} |-> undecided[b]]
                  /\ known' = [b \in DOMAIN known \ {e.b} |-> known[b]]
                  \* an add that returned normally must not have been seen absent AFTER... (it may have been absent before)
-                 /\ UNCHANGED <<rowsOf, viol>>
+                 /\ UNCHANGED <<rowsOf, viol, big>>
             ELSE /\ undecided' = [undecided EXCEPT ![e.b] = "ended"]
-                 /\ UNCHANGED <<rowsOf, committed, known, viol>>
+                 /\ UNCHANGED <<rowsOf, committed, known, viol, big>>
        [] e.ev = "Crash" ->
             /\ undecided' = [undecided EXCEPT ![e.b] = "ended"]
-            /\ UNCHANGED <<rowsOf, committed, known, viol>>
+            /\ UNCHANGED <<rowsOf, committed, known, viol, big>>
        [] e.ev = "Filter" ->
             LET res == {Row(e.res[j]) : j \in 1..Len(e.res)}
                 distinct == Cardinality(res) = Len(e.res)
@@ -94,13 +126,13 @@ Step ==
                                /\ Cardinality(res) = IF Cardinality(M) <= e.n THEN Cardinality(M) ELSE e.n}
             IN /\ IF ~distinct THEN /\ viol' = viol \cup {"FilterDistinct"} /\ UNCHANGED known
                   ELSE Observe(Expl, "FilterExact")
-               /\ UNCHANGED <<rowsOf, committed, undecided>>
+               /\ UNCHANGED <<rowsOf, committed, undecided, big>>
        [] e.ev = "Modules" ->
             LET res == {e.res[j] : j \in 1..Len(e.res)}
                 Expl == {X \in Admissible : res = {r.mod : r \in RowSet(Visible(X))}}
             IN /\ IF Cardinality(res) # Len(e.res) THEN /\ viol' = viol \cup {"ModulesDistinct"} /\ UNCHANGED known
                   ELSE Observe(Expl, "ModulesExact")
-               /\ UNCHANGED <<rowsOf, committed, undecided>>
+               /\ UNCHANGED <<rowsOf, committed, undecided, big>>
        [] e.ev = "Check" ->
             LET got == {Row(e.rows[j]) : j \in 1..Len(e.rows)}
                 cnt(r) == (CHOOSE j \in 1..Len(e.rows) : Row(e.rows[j]) = r)
@@ -109,23 +141,23 @@ Step ==
                            /\ \A j \in 1..Len(e.rows) : e.rows[j].cnt = Count(Visible(X), Row(e.rows[j]))}
             IN /\ IF e.integrity # "ok" THEN /\ viol' = viol \cup {"Integrity"} /\ UNCHANGED known
                   ELSE Observe(Expl, "Atomic")
-               /\ UNCHANGED <<rowsOf, committed, undecided>>
+               /\ UNCHANGED <<rowsOf, committed, undecided, big>>
        [] e.ev = "QueryFailed" ->
             \* filter / list_modules raised.  While some add() is still in flight a reader may be told the
             \* database is busy; with no writer in flight a query must answer.
             /\ viol' = viol \cup (IF \E b \in DOMAIN undecided : undecided[b] = "flying" THEN {} ELSE {"QueryFails"})
-            /\ UNCHANGED <<rowsOf, committed, undecided, known>>
-       [] OTHER -> UNCHANGED <<rowsOf, committed, undecided, known, viol>>
+            /\ UNCHANGED <<rowsOf, committed, undecided, known, big>>
+       [] OTHER -> UNCHANGED <<rowsOf, committed, undecided, known, viol, big>>
   /\ l' = l + 1 /\ UNCHANGED i
 
 EndTrace ==
   /\ i <= N /\ l = Len(Recs[i].events)
   /\ viol # {} => PrintT(<<"V", ToJson([tid |-> Recs[i].tid, viol |-> viol, drift |-> FALSE])>>)
-  /\ i' = i + 1 /\ l' = 0 /\ rowsOf' = Empty /\ committed' = {} /\ undecided' = Empty /\ known' = Empty /\ viol' = {}
+  /\ i' = i + 1 /\ l' = 0 /\ big' = {} /\ rowsOf' = Empty /\ committed' = {} /\ undecided' = Empty /\ known' = Empty /\ viol' = {}
 
 Done == /\ i = N + 1
         /\ PrintT(<<"DONE", ToJson([n |-> N])>>)
-        /\ i' = N + 2 /\ UNCHANGED <<l, rowsOf, committed, undecided, known, viol>>
+        /\ i' = N + 2 /\ UNCHANGED <<l, big, rowsOf, committed, undecided, known, viol>>
 
 Next == Step \/ EndTrace \/ Done
 Spec == Init /\ [][Next]_vars
